@@ -200,8 +200,8 @@ func (s *Sim) c08Split(p *ProviderActor, chain string, coins sdk.Coins) {
 	for i := range contribs {
 		contribPart[i] = c21Diff(contrib1[i], contrib0[i])
 	}
-	srcOut := c21Diff(src0, src1)    // what left the sender
-	dualIn := c21Diff(dual1, dual0)  // what reached the dualstaking module
+	srcOut := c21Diff(src0, src1)   // what left the sender
+	dualIn := c21Diff(dual1, dual0) // what reached the dualstaking module
 	line := fmt.Sprintf("split %s -> provider=%s ret=%s delegators=[", desc, c21DiffStr(vaultPart), ret)
 	for i := range parts {
 		line += fmt.Sprintf("%s:%s ", others[i].credit, c21DiffStr(parts[i]))
